@@ -41,6 +41,7 @@ def gen_case(rng, tie=False):
             for i in range(d):
                 for j in range(i):
                     H[i][j] = dec(rng, -2, 2)
+            common.sparse_tilt(rng, H)
         if kind == "gen":
             for i in range(d):
                 for j in range(i + 1, d):
@@ -70,6 +71,7 @@ def gen_sibling(rng, c):
     for i in range(d):
         for j in range(i):
             H[i][j] = dec(rng, -2, 2) if c["kind"] != "orth" or rng.random() < 0.8 else "0"
+    common.sparse_tilt(rng, H)
     if c["kind"] != "orth" and rng.random() < 0.3:      # sheared cell followed by the orthogonal cell of the same lengths
         for i in range(d):
             for j in range(d):
